@@ -370,6 +370,14 @@ def check_dispatcher(rep, tier, rng, an, summary, drv, run_):
         rep.tie_broken("harness `dispatch` failed on the host: %r" % host[:1])
         return []
     hostset = {f for f, b in zip(detected, hostcaps) if b == "1"}
+    # detection itself, against an independent reading of CPUID (libgcc's __builtin_cpu_supports) on the uncapped host
+    indep = dict(x.split("=", 1) for x in host[0].split()[1:]).get("indep")
+    rep.count("detect host", nontrivial=True)
+    # only OVER-reporting matters for the property (a kernel of an ISA level the machine lacks would be selected);
+    # reporting fewer features than the machine has merely selects a lower, equally correct level
+    if indep is not None and len(indep) == len(hostcaps) and any(a == "1" and b == "0" for a, b in zip(hostcaps, indep)):
+        rep.violation("carquet_get_cpu_info() claims a feature the machine does not offer: it reports %s for (%s), an independent CPUID reading gives %s"
+                      % (hostcaps, ",".join(detected), indep), {"kind": "dispatch", "mask": list(detected), "detect": [hostcaps, indep]})
     rep.cov["host_features"] = sorted(hostset, key=detected.index)
 
     def one(feats):
